@@ -222,6 +222,25 @@ func c10Scenarios(tier mc.Tier) []mc.Scenario {
 			}
 		}
 	}
+	// signing times a fraction of a second away from an invalidity date (a time.Time carries nanoseconds; CRL dates carry seconds)
+	sub := c10Alphabet([]int{1, 6, 8}, []int{0, 1}, []int{0, 1, 2, 3}, []bool{false})
+	for _, sh := range []time.Duration{-time.Nanosecond, -400 * time.Millisecond, -500 * time.Millisecond, -999 * time.Millisecond, time.Nanosecond, 500 * time.Millisecond} {
+		for _, L := range []int{1, 2} {
+			for split := 0; split <= L; split++ {
+				sh, L, split := sh, L, split
+				expect := int64(1)
+				for i := 0; i < L; i++ {
+					expect *= int64(len(sub))
+				}
+				out = append(out, mc.Scenario{
+					Name:   fmt.Sprintf("C10-signing-time-%v-from-the-invalidity-date-len%d-base%d", sh, L, split),
+					Params: map[string]string{"alphabet": fmt.Sprint(len(sub)), "length": fmt.Sprint(L), "entriesInBase": fmt.Sprint(split), "signingTime": fmt.Sprintf("invalidity date %+v", sh)},
+					Bound:  -1, Expect: expect,
+					Body: func(c *mc.Ctx) { c10BodyShift(c, sub, L, split, true, false, sh) },
+				})
+			}
+		}
+	}
 	for _, cf := range cfgs {
 		for _, stSet := range []bool{true, false} {
 			for split := 0; split <= cf.L; split++ {
@@ -305,6 +324,12 @@ func c10Body(c *mc.Ctx, alpha []c10Entry, L, split int, stSet bool) {
 }
 
 func c10BodyVia(c *mc.Ctx, alpha []c10Entry, L, split int, stSet bool, fallback bool) {
+	c10BodyShift(c, alpha, L, split, stSet, fallback, 0)
+}
+
+// c10BodyShift: the supplied signing time is c10ST + shift (a fraction of a second before or after the instant the invalidity
+// dates of class "equal" name); the reference sees those entries as lying after / before the signing time accordingly.
+func c10BodyShift(c *mc.Ctx, alpha []c10Entry, L, split int, stSet bool, fallback bool, shift time.Duration) {
 	w := c10World()
 	if fallback {
 		w = c10WorldFallback()
@@ -353,7 +378,7 @@ func c10BodyVia(c *mc.Ctx, alpha []c10Entry, L, split int, stSet bool, fallback 
 	}
 	var st time.Time
 	if stSet {
-		st = c10ST
+		st = c10ST.Add(shift)
 	}
 	res, err, pan := callValidate(v, context.Background(), revocation.ValidateContextOptions{CertChain: []*x509.Certificate{w.leaf.X, w.root.X}, AuthenticSigningTime: st})
 	if pan != nil || err != nil || len(res) != 2 || res[0] == nil {
@@ -361,7 +386,21 @@ func c10BodyVia(c *mc.Ctx, alpha []c10Entry, L, split int, stSet bool, fallback 
 		return
 	}
 	verdict := res[0].Result
-	allowed := c10Interp(entries, stSet)
+	refEntries := entries
+	if stSet && shift != 0 {
+		refEntries = append([]c10Entry(nil), entries...)
+		for i := range refEntries {
+			if refEntries[i].inv == 2 {
+				// the invalidity date is c10ST itself: after a signing time that lies before it, before one that lies after it
+				if shift < 0 {
+					refEntries[i].inv = 3
+				} else {
+					refEntries[i].inv = 1
+				}
+			}
+		}
+	}
+	allowed := c10Interp(refEntries, stSet)
 	var al []string
 	for _, r := range []result.Result{result.ResultOK, result.ResultRevoked, result.ResultUnknown} {
 		if allowed[r] {
